@@ -201,6 +201,18 @@ def check(ctx):
             return names[k]
         return [_re.sub(r"\bv\d+\b", ren, t) for t in out]
     a, b = skeleton(yp), skeleton(yn)
+
+    def _no_empty_guard(sk):
+        # an explicit early exit for an input of length zero ("if n == 0: return") says what the loop over range(1, n + 1)
+        # does anyway; one twin may spell it out
+        import re as _re2
+        for k_ in range(len(sk) - 1):
+            if sk[k_].startswith("LOOP "):
+                break
+            if _re2.match(r"^IF (w\d+ == 0|not w\d+|len\(w\d+\) == 0)$", sk[k_]) and sk[k_ + 1] in ("return", "return out", "RETURN"):
+                return sk[:k_] + sk[k_ + 2:]
+        return sk
+    a, b = _no_empty_guard(a), _no_empty_guard(b)
     ok = a == b and bool(a)
     ctx.ob("SIB-8", yn, "yield_groups == yield_groups_numba modulo yield/append and the NA test", yn.node, ok,
            "the two group scanners are the same loop" if ok else f"group scanners differ: {[x for x in a if x not in b]} vs {[x for x in b if x not in a]}",
